@@ -3,6 +3,7 @@ package checks
 import (
 	"encoding/hex"
 	"encoding/json"
+	"errors"
 	"fmt"
 	"strconv"
 	"strings"
@@ -80,7 +81,9 @@ type SignCfg struct {
 	// Truncating participants answer with partial signatures for the FIRST message of the batch
 	// only (valid shares, incomplete list) — a Byzantine but properly signed contribution
 	Truncating []int
-	MaxStates  int
+	// Failing participants' operators report a signing error instead of partial signatures
+	Failing   []int
+	MaxStates int
 }
 
 func (c SignCfg) String() string {
@@ -91,6 +94,9 @@ func (c SignCfg) String() string {
 	extra := ""
 	if len(c.Truncating) > 0 {
 		extra = fmt.Sprintf(" truncating=%v", c.Truncating)
+	}
+	if len(c.Failing) > 0 {
+		extra += fmt.Sprintf(" failing=%v", c.Failing)
 	}
 	return fmt.Sprintf("n=%d t=%d batches=%v proposers=%v lag=%v silent=%v%s", c.N, c.T, ids, c.Proposers, c.Lag, c.Silent, extra)
 }
@@ -231,6 +237,10 @@ func (sw *SignWorld) Model(cfg SignCfg, check func(k *worldx.Worker, s *worldx.S
 					if contains(cfg.Truncating, i) {
 						mutate = truncatePartials
 					}
+					if contains(cfg.Failing, i) {
+						pid := i
+						mutate = func(res *types.Operation) { reportSigningError(res, pid) }
+					}
 					c, apiErr, err := k.OperateOp(s, i, op.ID, mutate)
 					if err != nil {
 						return nil, err
@@ -257,6 +267,20 @@ func (sw *SignWorld) Model(cfg SignCfg, check func(k *worldx.Worker, s *worldx.S
 			return out, nil
 		},
 	}
+}
+
+// reportSigningError turns a signing result into the error report the machine would produce.
+func reportSigningError(res *types.Operation, pid int) {
+	if len(res.ResultMsgs) == 0 {
+		return
+	}
+	er := requests.SignatureProposalConfirmationErrorRequest{ParticipantId: pid, Error: requests.NewFSMError(errors.New("cannot sign")), CreatedAt: res.CreatedAt}
+	res.Event = sif.EventSigningPartialSignError
+	m := res.ResultMsgs[0]
+	m.Event = string(sif.EventSigningPartialSignError)
+	m.Data, _ = json.Marshal(er)
+	res.ResultMsgs = res.ResultMsgs[:1]
+	res.ResultMsgs[0] = m
 }
 
 // truncatePartials keeps only the first partial signature of a signing result.
